@@ -31,6 +31,7 @@ pub fn cases(tier: Tier) -> Vec<Case> {
         Case { eintr: false, openers: 3, file_exists: true, bound: if q { 2 } else { 3 } },
         Case { eintr: false, openers: 3, file_exists: false, bound: if q { 2 } else { 3 } },
         Case { eintr: true, openers: 2, file_exists: true, bound: if q { 3 } else { 6 } },
+        Case { eintr: true, openers: 3, file_exists: false, bound: if q { 1 } else { 2 } },
     ]
 }
 
